@@ -467,7 +467,7 @@ func init() {
 	run.Register(&run.Def{
 		ID:          "C13",
 		Level:       "model_checking",
-		Rule:        "explicit-state exploration of the merge state space restricted to a synonym menu of 6 segment shapes (same synonyms with different internal ids in different inputs; a term defined in several segments; a thesaurus present in only one input; two definers of one term; a segment without synonyms; an empty batch), inputs in memory or re-opened; transitions = Merge(ordered list of <=3 states, EVERY drop vector incl. all definers of a term / all documents of a thesaurus deleted); distinct depth-1 states (canonical key from the reference model) are merged again at depth 2 (and 3 in thorough). Oracle in every state: for every (thesaurus, term, exclusion bitmap) the (synonym, doc) pairs == reference of the survivors under the new numbering, terms without survivors absent, ordinary dictionaries unaffected. Non-trivial = merge with >= 1 survivor.",
+		Rule:        "explicit-state exploration of the merge state space restricted to a synonym menu of 6 segment shapes (same synonyms with different internal ids in different inputs; a term defined in several segments; a thesaurus present in only one input; two definers of one term; a segment without synonyms; an empty batch), inputs in memory or re-opened; transitions = Merge(ordered list of <=3 states, EVERY drop vector incl. all definers of a term / all documents of a thesaurus deleted); distinct depth-1 states (canonical key from the reference model) are merged again at depth 2 (and 3 in thorough). Oracle in every state: for every (thesaurus, term, exclusion bitmap) the (synonym, doc) pairs == reference of the survivors under the new numbering, terms without survivors absent, ordinary dictionaries unaffected. Plus an 'alphabet' family that reuses C12's BUILD alphabet as merge inputs: every batch of 1 and of 2 documents over the 15 document kinds (240 segments) merged alone under every non-empty drop vector (in memory and re-opened) and merged with every 1-document batch on either side, nothing dropped / its first document dropped (quick: a third of these pairs). Non-trivial = merge with >= 1 survivor.",
 		Assumptions: batchAssumptions,
 		Bounds: map[string]string{
 			"quick":    "lists <=2 over 6 items + triples over 3 items, every drop vector, depth 2 with 1 item",
@@ -476,6 +476,7 @@ func init() {
 		New: func() interface{} { return &enum.MergeCase{} },
 		Gen: func(tier string, emit func(interface{})) {
 			genMerges("syn", synBounds(tier), func(c enum.MergeCase) { emit(c) })
+			genAlphabetMerges("synA", enum.NumSynDocKinds, tier, func(c enum.MergeCase) { emit(c) })
 		},
 		Run: runMerge("C13"),
 	})
@@ -572,6 +573,43 @@ func genColMerges(tier string, emit func(enum.MergeCase)) {
 					emit(enum.MergeCase{Menu: "cols3", Mode: mode, E: enum.Expr{In: []enum.Expr{enum.L(i, opened)},
 						Drops: [][]int{append([]int{}, drops[0]...)}, DropOK: []bool{true}}})
 				})
+			}
+		}
+	}
+}
+
+// genAlphabetMerges: a build alphabet (menu = all 1-document batches, then all 2-document
+// batches over `kinds` document kinds) reused as merge inputs: every item alone under
+// every non-empty drop vector, and every item merged with every 1-document item on
+// either side, with nothing dropped and with the item's first document dropped (quick: a
+// third of the 2-document items per partner), in memory and - for the single-input
+// merges - re-opened.
+func genAlphabetMerges(menuName string, kinds int, tier string, emit func(enum.MergeCase)) {
+	menu := enum.Menu(menuName)
+	for i, b := range menu {
+		n := len(b.Docs)
+		for _, opened := range []bool{false, true} {
+			enum.ForDrops([]int{n}, true, func(drops [][]int, ok []bool) {
+				if !ok[0] || len(drops[0]) == 0 {
+					return
+				}
+				emit(enum.MergeCase{Menu: menuName, Mode: 1026, E: enum.Expr{In: []enum.Expr{enum.L(i, opened)},
+					Drops: [][]int{append([]int{}, drops[0]...)}, DropOK: []bool{true}}})
+			})
+		}
+		for j := 0; j < kinds; j++ {
+			if tier == "quick" && n == 2 && (i+j)%3 != 0 {
+				continue
+			}
+			for _, dropFirst := range []bool{false, true} {
+				var d []int
+				if dropFirst {
+					d = []int{0}
+				}
+				emit(enum.MergeCase{Menu: menuName, Mode: 1026, E: enum.Expr{In: []enum.Expr{enum.L(i, false), enum.L(j, dropFirst)},
+					Drops: [][]int{d, nil}, DropOK: []bool{dropFirst, false}}})
+				emit(enum.MergeCase{Menu: menuName, Mode: 1026, E: enum.Expr{In: []enum.Expr{enum.L(j, false), enum.L(i, !dropFirst)},
+					Drops: [][]int{nil, d}, DropOK: []bool{false, dropFirst}}})
 			}
 		}
 	}
